@@ -1043,13 +1043,42 @@ func ruleG7(c *Ctx) *RuleResult {
 	})
 	// test against the open segment: load of `parts` through the slot
 	var openTests []ssa.Instruction
-	allInstrs(fn, func(in ssa.Instruction) {
+	acc := c.slotAccessors()
+	var loadsOpenParts func(in ssa.Instruction, depth int) bool
+	loadsOpenParts = func(in ssa.Instruction, depth int) bool {
 		if u, ok := in.(*ssa.UnOp); ok && u.Op == token.MUL {
 			if f, b := fieldOfAddr(u.X); f == parts {
-				if sf, _ := loadedField(stripAsserts(b)); sf == slot {
-					openTests = append(openTests, in)
+				sb := stripAsserts(b)
+				if ex, isEx := sb.(*ssa.Extract); isEx {
+					sb = stripAsserts(ex.Tuple)
+				}
+				if sf, _ := loadedField(sb); sf == slot {
+					return true
+				}
+				if call, isCall := sb.(*ssa.Call); isCall {
+					if af, isAcc := acc[call.Call.StaticCallee()]; isAcc && af == slot {
+						return true
+					}
 				}
 			}
+		}
+		// a helper of the stream that reads the open segment's parts on behalf of its caller
+		if call, ok := in.(*ssa.Call); ok && depth < 2 {
+			if g := call.Call.StaticCallee(); g != nil && InRootPkg(g) && g.Blocks != nil && g != fn {
+				found := false
+				allInstrs(g, func(x ssa.Instruction) {
+					if loadsOpenParts(x, depth+1) {
+						found = true
+					}
+				})
+				return found
+			}
+		}
+		return false
+	}
+	allInstrs(fn, func(in ssa.Instruction) {
+		if loadsOpenParts(in, 0) {
+			openTests = append(openTests, in)
 		}
 	})
 	if len(rewrites) == 0 {
